@@ -3,6 +3,7 @@ package forward
 
 import (
 	"errors"
+	"slices"
 	"sync"
 
 	"github.com/google/uuid"
@@ -75,7 +76,8 @@ func (m *Manager) ReloadConf(forward conf.Forward) {
 	toClose := make([]*DestHandler, 0)
 
 	for i, dest := range forward {
-		if i < len(m.destHandlers) && m.destHandlers[i].Conf == dest {
+		if i < len(m.destHandlers) && m.destHandlers[i].Conf == dest &&
+			slices.Equal(m.destHandlers[i].Matches, m.Matches) {
 			newHandlers[i] = m.destHandlers[i]
 		} else {
 			if i < len(m.destHandlers) {
